@@ -144,6 +144,7 @@ def concrete_monitor(trace, native):
     word = {(d, k): False for d in deps for k in ('Build', 'Service')}
     seen = {}
     acked = {'Build': False, 'Service': False}
+    act = {(d, k): False for d in deps for k in ('Build', 'Service')}
     proc = False
     nspawn = 0
     viol = set()
@@ -157,6 +158,8 @@ def concrete_monitor(trace, native):
                 word[(who, k)] = True
             if v == 'Invalidated' and (who, k) in word:
                 word[(who, k)] = False
+            if v == 'Ok' and (who, k) in act:
+                act[(who, k)] = bool(st['actual'])
         outs = nat['out']
         oks = [(o[0], o[2]) for o in outs if o[1] == 'Ok' and o[3] == me]
         invs = [o[2] for o in outs if o[1] == 'Invalidated' and o[3] == me]
@@ -196,6 +199,12 @@ def concrete_monitor(trace, native):
             if kindme == 'aggregate' and any(o[1] == 'Ok' and o[2] == k and o[3] == me for o in outs):
                 if any(not word[(d, k)] for d in deps):
                     viol.add('ok_without_cause')
+        if kindme == 'aggregate':
+            for o in outs:
+                if o[1] == 'Ok' and o[3] == me and o[4] is not None:
+                    want = any(act[(d, o[2])] for d in deps)
+                    if o[4] != want:
+                        viol.add('wrong_actual')
         if nat['errs'] and any(o[1] == 'Ok' and o[3] == me and o[4] for o in outs):
             viol.add('ok_on_fail')
         for o in outs:
